@@ -242,7 +242,7 @@ func (e *engine) runConfirmed(sp Spec) {
 	// confirmed once it is seen again in one of up to four fresh teamservers; every other
 	// candidate must show in both of two.
 	structural := func(s string) bool {
-		return s == "wedge:send-blocked-on-client-mutex-nobody-holds" || s == "lock:client-mutex-left-locked-after-failed-write"
+		return s == "wedge:send-blocked-on-client-mutex-nobody-holds" || s == "lock:client-mutex-left-locked-after-failed-write" || s == "wedge:event-log-mutex-left-locked"
 	}
 	need := func() bool {
 		for _, s := range sigs {
